@@ -101,8 +101,8 @@ Proof. exact pow_succ. Qed.
 Theorem C16_pow_unspecified : forall a b, as_i64 b = None -> npow a b = Unspec.
 Proof. exact pow_unspecified. Qed.
 
-Theorem C16_pow_doc_range_refuted : exists a n, (- 2 ^ 63 <= n <= 2 ^ 64 - 1)%Z /\ npow a (inject_Z n) = Unspec.
-Proof. exact pow_doc_range_refuted. Qed.
+Theorem C16_pow_beyond_i64_unspecified : exists a n, (- 2 ^ 63 <= n <= 2 ^ 64 - 1)%Z /\ npow a (inject_Z n) = Unspec.
+Proof. exact pow_beyond_i64_unspecified. Qed.
 
 Theorem C16_from_sci_spec : forall l, from_sci l == (inject_Z (Z.of_N (digits_val (l_int l))) + inject_Z (Z.of_N (digits_val (l_frac l))) / (10 # 1) ^ Z.of_nat (List.length (l_frac l))) * (10 # 1) ^ l_exp l.
 Proof. exact from_sci_spec. Qed.
